@@ -30,7 +30,7 @@ META = {
 }
 
 
-def build_docs(rng, n_create, n_delete, n_other, n_replace, two_ids, dup_ids=False, completed_create=False):
+def build_docs(rng, n_create, n_delete, n_other, n_replace, two_ids, dup_ids=False, completed_create=False, blank_id=False):
     docs = []
     mid = [0]
 
@@ -62,6 +62,9 @@ def build_docs(rng, n_create, n_delete, n_other, n_replace, two_ids, dup_ids=Fal
                     .replace('<messageID>1</messageID>', '<messageID>%d</messageID>' % nxt()))
     for k in range(n_delete):
         docs.append(B.msg_doc('roDelete', nxt() + (0 if dup_ids else 1000)))
+    if blank_id:
+        # the ONE running-order ID every message shares is the blank one
+        docs = [d.replace('<roID>RO</roID>', '<roID/>') for d in docs]
     if two_ids and len(docs) >= 2:
         j = rng.randrange(len(docs))
         docs[j] = docs[j].replace('<roID>RO</roID>', rng.choice(['<roID>OTHER</roID>', '<roID />', '<roID> RO</roID>']), 1)
@@ -130,7 +133,8 @@ def run(s):
                 if not s.mine(idx):
                     continue
                 rng = s.rng('grid', n_c, n_d, n_o, n_r, two)
-                docs = build_docs(rng, n_c, n_d, n_o, n_r, two, dup_ids=(idx % 3 == 0), completed_create=(idx % 7 == 5))
+                docs = build_docs(rng, n_c, n_d, n_o, n_r, two, dup_ids=(idx % 3 == 0), completed_create=(idx % 7 == 5),
+                                  blank_id=(idx % 5 == 2))
                 s.hist['lists_with_a_completed_roCreate'] += int(idx % 7 == 5 and n_c > 0)
                 if order:
                     docs = list(reversed(docs))
